@@ -1,6 +1,7 @@
 (* Case runner for the C10 correspondence: literal constructors, the two case kinds (select_edfa called directly /
    get_node_restrictions + selection as auto-design does for one node) and the text renderer. *)
 From Coq Require Export QArith.
+From Coq Require Import Qminmax.
 From Verif Require Import Prelude Model.Select.
 Open Scope Q_scope.
 
@@ -43,7 +44,7 @@ Definition run_node (nd : anode) (prev next : neigh) (bmin bmax maxl gain pt ext
           (append "#"
              (if negb (String.eqb (n_variety nd) "") then "imposed"%string
               else sel_s (auto_select nd prev next bmin bmax maxl gain pt ext (nf_of l) lib)
-                         (select_crit ra gain pt ext (restrict_lib r lib)))))).
+                         (Qmin (raman_crit prev maxl) (select_crit ra gain pt ext (restrict_lib r lib))))))).
 
 (* several calls on candidate dicts drawn from one library: each call lists (index in lib, NF at its gain) *)
 Definition amq (n : string) (multi ram allowed : bool) (fmin fmax gmin gmax pmax : Q) : amp :=
@@ -54,3 +55,16 @@ Definition call (ra : bool) (gain pt ext : Q) (sub : list (nat * Q)) : bool * Q 
 Definition run_sels (lib : list amp) (calls : list (bool * Q * Q * Q * list (nat * Q))) : string :=
   join ";" (map (fun c => let '(ra, gain, pt, ext, sub) := c in
                           run_sel ra gain pt ext (map (fun iv => (nth (fst iv) lib dummy_amp, snd iv)) sub)) calls).
+
+(* all amplifier nodes of one designed network: shared library, design band and Raman limit; each node brings its
+   neighbours, targets and the noise figures of its candidates (by name; 0 for entries that are not candidates) *)
+Fixpoint nfs_lookup (l : list (string * Q)) (n : string) : Q :=
+  match l with [] => 0 | (k, v) :: t => if String.eqb k n then v else nfs_lookup t n end.
+Definition nfv (n : string) (v : Q) : string * Q := (n, v).
+Definition ncall (nd : anode) (prev next : neigh) (bmin bmax gain pt ext : Q) (nfs : list (string * Q))
+  : anode * neigh * neigh * Q * Q * Q * Q * Q * list (string * Q) := (nd, prev, next, bmin, bmax, gain, pt, ext, nfs).
+Definition run_nodes (lib : list amp) (maxl : Q)
+                     (calls : list (anode * neigh * neigh * Q * Q * Q * Q * Q * list (string * Q))) : string :=
+  join ";" (map (fun c => let '(nd, prev, next, bmin, bmax, gain, pt, ext, nfs) := c in
+                          run_node nd prev next bmin bmax maxl gain pt ext
+                                   (map (fun a => (a, nfs_lookup nfs (a_name a))) lib)) calls).
